@@ -11,7 +11,7 @@
 //!  * `degenerate`      exhaustive: every comment count 0..=255 on contents of 0,1,2 bytes, plus the files that are nothing
 //!                      but a record (and comment block) without EOF byte.
 use icy_engine::ascii::CP437_TO_UNICODE;
-use icy_engine::{AttributedChar, BitFont, Buffer, IceMode, SauceData, SauceString, SaveOptions, Size, TextAttribute, TextPane, FORMATS, SAUCE_FONT_NAMES};
+use icy_engine::{AttributedChar, BitFont, Buffer, BufferType, IceMode, SauceData, SauceString, SaveOptions, Size, TextAttribute, TextPane, FORMATS, SAUCE_FONT_NAMES};
 use icyv::proptest::collection::vec;
 use icyv::proptest::prelude::*;
 use icyv::util::{escape, pick, Bytes};
@@ -146,6 +146,21 @@ struct WCase {
     history: u8,
     #[serde(default)]
     prev: Option<Meta>,
+    /// the state of the document around the metadata (the flags and texts the user set have to come back whatever it is)
+    #[serde(default)]
+    doc: Doc,
+}
+
+#[derive(Clone, Debug, Default, PartialEq, Hash, Serialize, Deserialize)]
+struct Doc {
+    /// font in slot 0: 0 = the buffer's own default (8x16 CP437), 1 = built-in ANSI font page `font_page` (8x8, 8x14, 8x16),
+    /// 2 = the built-in 6x16 Viewdata font, 3 = a custom font of `font_w` x `font_h` pixels; `meta.font`, when not empty, renames it
+    font_shape: u8,
+    font_page: u8,
+    font_w: u8,
+    font_h: u8,
+    /// 0 CP437, 1 Unicode, 2 Petscii, 3 Atascii, 4 Viewdata
+    buffer_type: u8,
 }
 
 /// content (not produced with SAUCE) + a SAUCE trailer described by the model, encoded by the reference encoder below
@@ -179,6 +194,31 @@ struct RCase {
     font_ibm_vga: bool,
     /// ans only: Character/ANSiMation instead of Character/ANSi
     ansimation: bool,
+    /// the fields of the record that carry nothing the property lists: whatever they contain, the trailer is cut off exactly
+    #[serde(default)]
+    free: Free,
+}
+
+#[derive(Clone, Debug, Default, PartialEq, Hash, Serialize, Deserialize)]
+struct Free {
+    /// FileSize: 0 -> content length (the document's value), 1 -> 0, 2 -> 1, 3 -> content length - 1, 4 -> content length + 1,
+    /// 5 -> content length + 2 (the EOF byte counted twice), 6 -> 0xFFFF_FFFF, 7 -> `size_val`
+    size_sel: u8,
+    size_val: u32,
+    /// Date: 0 -> "20130504", 1 -> blanks (the document: "not used"), 2 -> "00000000", 3 -> "19941332", 4 -> NULs, 5 -> `date_raw`
+    date_sel: u8,
+    date_raw: Bytes,
+    tinfo3: u16,
+    tinfo4: u16,
+    /// TFlags bits 5..=7 (reserved); for variants without ANSiFlags the low bits come from `flags_lo`
+    flags_hi: u8,
+    flags_lo: u8,
+    /// bytes behind the NUL terminator of TInfoS; for variants without FontName the whole field
+    tinfos_junk: Bytes,
+    /// 0 = the natural DataType/FileType of the format; 1 = DataType `data_type` / FileType `file_type` (any value)
+    odd_type: u8,
+    data_type: u8,
+    file_type: u8,
 }
 
 // ---------------------------------------------------------------------------------------------------------------
@@ -337,20 +377,47 @@ fn put_cells(buf: &mut Buffer, cells: &[Cell], width: i32, height: i32) {
     }
 }
 
-fn set_font0(buf: &mut Buffer, font: &[u8]) {
-    let mut f = BitFont::default();
+fn base_font(doc: &Doc) -> BitFont {
+    match doc.font_shape {
+        1 => BitFont::from_ansi_font_page(doc.font_page as usize).unwrap_or_default(),
+        2 => BitFont::from_bytes("Viewdata", icy_engine::VIEWDATA).unwrap_or_default(),
+        3 => {
+            let (w, h) = (doc.font_w.clamp(4, 16), doc.font_h.clamp(1, 32));
+            // every glyph a different bit pattern
+            let data: Vec<u8> = (0..256usize * h as usize).map(|i| (i / h as usize) as u8 ^ (i as u8).rotate_left(3)).collect();
+            BitFont::create_8(format!("custom {w}x{h}"), w, h, &data)
+        }
+        _ => BitFont::default(),
+    }
+}
+
+fn set_font0(buf: &mut Buffer, font: &[u8], doc: &Doc) {
+    let mut f = base_font(doc);
     if let Some(name) = font_name(font) {
         f.name = name;
     }
     buf.set_font(0, f);
 }
 
-fn fresh(m: &Meta, h: i32, cells: &[Cell]) -> Buffer {
+/// what the 22 byte FontName field can carry of the name of font 0: its first 22 characters in CP437 ('?' for anything else)
+fn carried_font_name(buf: &Buffer) -> Vec<u8> {
+    let name = buf.get_font(0).map(|f| f.name.clone()).unwrap_or_default();
+    name.chars().take(22).map(|c| rev_table().get(&c).copied().unwrap_or(b'?')).collect()
+}
+
+fn fresh(m: &Meta, doc: &Doc, h: i32, cells: &[Cell]) -> Buffer {
     let w = m.width as i32;
     let mut buf = Buffer::new((w, h));
     buf.ice_mode = if m.ice { IceMode::Ice } else { IceMode::Blink };
-    if !m.font.is_empty() {
-        set_font0(&mut buf, &m.font);
+    buf.buffer_type = match doc.buffer_type {
+        1 => BufferType::Unicode,
+        2 => BufferType::Petscii,
+        3 => BufferType::Atascii,
+        4 => BufferType::Viewdata,
+        _ => BufferType::CP437,
+    };
+    if !m.font.is_empty() || doc.font_shape != 0 {
+        set_font0(&mut buf, &m.font, doc);
     }
     put_cells(&mut buf, cells, w, h);
     buf
@@ -362,7 +429,7 @@ fn build(c: &WCase, with_sauce: bool) -> Result<Buffer, String> {
     let prev = match (&c.prev, c.history) {
         (Some(p), 1 | 2) if with_sauce => p,
         _ => {
-            let mut buf = fresh(&c.meta, h, &c.cells);
+            let mut buf = fresh(&c.meta, &c.doc, h, &c.cells);
             if with_sauce {
                 buf.set_sauce(Some(sauce_of(&c.meta, h)), false);
             }
@@ -370,7 +437,7 @@ fn build(c: &WCase, with_sauce: bool) -> Result<Buffer, String> {
         }
     };
     let mut buf = if c.history == 1 {
-        let mut first = fresh(prev, 1, &[]);
+        let mut first = fresh(prev, &Doc::default(), 1, &[]);
         first.set_sauce(Some(sauce_of(prev, 1)), false);
         let bytes = first.to_bytes(ext(c.fmt), &save_opts(true)).map_err(|e| format!("first cycle, save: {e}"))?;
         Buffer::from_bytes(&file_name(c.fmt), false, &bytes).map_err(|e| format!("first cycle, load: {e}"))?
@@ -387,7 +454,7 @@ fn build(c: &WCase, with_sauce: bool) -> Result<Buffer, String> {
     buf.layers[0].set_size((w, h));
     buf.layers[0].lines.clear();
     buf.ice_mode = if c.meta.ice { IceMode::Ice } else { IceMode::Blink };
-    set_font0(&mut buf, &c.meta.font);
+    set_font0(&mut buf, &c.meta.font, &c.doc);
     put_cells(&mut buf, &c.cells, w, h);
     // ... and the record the buffer carries is brought up to date where only the record holds the value (its font_opt / use_ice stay as they were loaded)
     let cur = sauce_of(&c.meta, h);
@@ -546,7 +613,7 @@ fn walks_all_cells(fmt: u8) -> bool {
 }
 
 /// what the writer itself demands of a document (the writer refuses anything else), and cost limits of this check
-fn normalise(fmt: u8, meta: &mut Meta, height: &mut u16, tag: u8) {
+fn normalise(fmt: u8, meta: &mut Meta, doc: &mut Doc, height: &mut u16, tag: u8) {
     match fmt {
         ADF => {
             meta.width = 80;
@@ -556,6 +623,16 @@ fn normalise(fmt: u8, meta: &mut Meta, height: &mut u16, tag: u8) {
             meta.ice = true;
             *height = (*height).min(200);
         }
+        _ => {}
+    }
+    // fonts these formats embed: 8x16 only (adf, idf; the 8x8 / 8x14 pages are left in and get refused), 8 x 1..=32 (xb)
+    match fmt {
+        ADF | IDF if doc.font_shape >= 2 => *doc = Doc { buffer_type: doc.buffer_type, ..Doc::default() },
+        XB if doc.font_shape == 2 => *doc = Doc { buffer_type: doc.buffer_type, ..Doc::default() },
+        XB if doc.font_shape == 3 => doc.font_w = 8,
+        _ => {}
+    }
+    match fmt {
         // the native format renders a PNG preview of the whole document: keep most of its documents narrow (cost), all widths stay possible
         ICY => {
             if meta.width > 120 && tag >= 24 {
@@ -583,7 +660,7 @@ fn prev_meta(fmt: u8) -> BoxedStrategy<Meta> {
         .prop_map(move |((title, author, group, comments), (ice, letter_spacing, aspect_ratio, font, width, tag))| {
             let mut meta = Meta { title, author, group, comments, ice, letter_spacing, aspect_ratio, font, width };
             let mut h = 1;
-            normalise(fmt, &mut meta, &mut h, tag);
+            normalise(fmt, &mut meta, &mut Doc::default(), &mut h, tag);
             if matches!(fmt, BIN | IDF) {
                 meta.width = meta.width.min(510);
             }
@@ -602,11 +679,24 @@ fn wcase(fmt: u8, defaults: bool) -> BoxedStrategy<WCase> {
     let ice = if defaults { prop_oneof![6 => Just(false), 1 => any::<bool>()].boxed() } else { any::<bool>().boxed() };
     let fnt = if defaults { prop_oneof![6 => Just(Bytes(Vec::new())), 1 => font()].boxed() } else { font() };
     let history = prop_oneof![5 => Just(0u8), 2 => Just(1u8), 3 => Just(2u8)];
-    ((field(35), field(20), field(20), comment_lines()), (ice, any::<bool>(), any::<bool>(), fnt, wd), (height(), cells(), any::<u8>()), (history, prev_meta(fmt)))
-        .prop_map(move |((title, author, group, comments), (ice, letter_spacing, aspect_ratio, font, width), (mut height, cells, tag), (history, prev))| {
+    let doc = (
+        if defaults { prop_oneof![12 => Just(0u8), 1 => 1u8..=3].boxed() } else { prop_oneof![5 => Just(0u8), 2 => Just(1u8), 1 => Just(2u8), 2 => Just(3u8)].boxed() },
+        0u8..=42,
+        prop_oneof![1 => Just(8u8), 3 => 4u8..=16],
+        prop_oneof![1 => Just(16u8), 3 => 1u8..=32],
+        if defaults { Just(0u8).boxed() } else { prop_oneof![8 => Just(0u8), 1 => 1u8..=4].boxed() },
+    )
+        .prop_map(|(font_shape, font_page, font_w, font_h, buffer_type)| match font_shape {
+            0 => Doc { buffer_type, ..Doc::default() },
+            1 => Doc { font_shape, font_page, buffer_type, ..Doc::default() },
+            2 => Doc { font_shape, buffer_type, ..Doc::default() },
+            _ => Doc { font_shape, font_page: 0, font_w, font_h, buffer_type },
+        });
+    ((field(35), field(20), field(20), comment_lines()), (ice, any::<bool>(), any::<bool>(), fnt, wd), (height(), cells(), any::<u8>()), (history, prev_meta(fmt), doc))
+        .prop_map(move |((title, author, group, comments), (ice, letter_spacing, aspect_ratio, font, width), (mut height, cells, tag), (history, prev, mut doc))| {
             let mut meta = Meta { title, author, group, comments, ice, letter_spacing, aspect_ratio, font, width };
-            normalise(fmt, &mut meta, &mut height, tag);
-            WCase { fmt, meta, height, cells, history, prev: if history == 0 { None } else { Some(prev) } }
+            normalise(fmt, &mut meta, &mut doc, &mut height, tag);
+            WCase { fmt, meta, height, cells, history, prev: if history == 0 { None } else { Some(prev) }, doc }
         })
         .boxed()
 }
@@ -707,6 +797,8 @@ fn rcase(fmt: u8) -> BoxedStrategy<RCase> {
         2 => Just(Tok::NewLine),
         2 => (0u8..16, 0u8..8).prop_map(|(f, b)| Tok::Colour(f, b)),
         1 => (1u8..=20).prop_map(Tok::Forward),
+        // marker-like bytes in the middle of the content
+        1 => prop_oneof![Just(b"SAUCE".to_vec()), Just(b"COMNT".to_vec()), Just(vec![0x1Au8]), Just(b"SAUCE00".to_vec()), Just(b"\x1aCOMNT".to_vec())].prop_map(Tok::Text),
     ];
     let content = if !is_stream {
         Just((Bytes(Vec::new()), 0u8)).boxed()
@@ -731,10 +823,11 @@ fn rcase(fmt: u8) -> BoxedStrategy<RCase> {
     (
         (content, cells(), 1u8..=3),
         (field(35), field(20), field(20), comment_lines(), any::<bool>()),
-        (0u8..=2, 0u8..=2, 0u8..=3, 1u16..=300, prop_oneof![6 => Just(0u8), 1 => Just(1u8), 1 => Just(2u8)], 1001u16..=65535, any::<bool>(), any::<bool>()),
+        (0u8..=3, 0u8..=3, 0u8..=3, 1u16..=300, prop_oneof![6 => Just(0u8), 1 => Just(1u8), 1 => Just(2u8)], 1001u16..=65535, any::<bool>(), any::<bool>()),
+        free(),
     )
         .prop_map(
-            move |(((content, tail), cells, height), (title, author, group, comments, comment_pad_nul), (ls, ar, lines_sel, lines_val, width_sel, big_width, font_ibm_vga, ansimation))| RCase {
+            move |(((content, tail), cells, height), (title, author, group, comments, comment_pad_nul), (ls, ar, lines_sel, lines_val, width_sel, big_width, font_ibm_vga, ansimation), free)| RCase {
                 fmt,
                 content,
                 tail,
@@ -754,9 +847,42 @@ fn rcase(fmt: u8) -> BoxedStrategy<RCase> {
                 big_width,
                 font_ibm_vga,
                 ansimation: ansimation && fmt == ANS,
+                // bin: a variant without any character width counts as "width not given", which the loader deliberately reads as 80 (not bin's own 160):
+                // the differential clause does not apply there, so bin keeps to the variants that state a width
+                free: if fmt == BIN && free.odd_type != 0 && free.data_type != 5 && !variant_has_tinfo_width(free.data_type, free.file_type) {
+                    Free { odd_type: 0, data_type: 0, file_type: 0, ..free }
+                } else {
+                    free
+                },
             },
         )
         .boxed()
+}
+
+/// half of the records keep every free field at the document's value, the other half varies all of them independently
+fn free() -> BoxedStrategy<Free> {
+    let varied = (
+        (prop_oneof![4 => Just(0u8), 6 => 1u8..=6, 2 => Just(7u8)], prop_oneof![3 => 0u32..=600, 1 => any::<u32>()]),
+        (prop_oneof![8 => Just(0u8), 3 => 1u8..=4, 1 => Just(5u8)], vec(prop_oneof![3 => 0x30u8..=0x39, 1 => any::<u8>()], 8..=8)),
+        (any::<u16>(), any::<u16>(), 0u8..8, any::<u8>()),
+        vec(any::<u8>(), 0..=22),
+        (prop_oneof![3 => Just(0u8), 1 => Just(1u8)], prop_oneof![4 => 0u8..=8, 1 => any::<u8>()], prop_oneof![3 => 0u8..=9, 1 => any::<u8>()]),
+    )
+        .prop_map(|((size_sel, size_val), (date_sel, date_raw), (tinfo3, tinfo4, flags_hi, flags_lo), junk, (odd_type, data_type, file_type))| Free {
+            size_sel,
+            size_val,
+            date_sel,
+            date_raw: Bytes(if date_sel == 5 { date_raw } else { Vec::new() }),
+            tinfo3,
+            tinfo4,
+            flags_hi,
+            flags_lo,
+            tinfos_junk: Bytes(junk),
+            odd_type,
+            data_type: if odd_type == 0 { 0 } else { data_type },
+            file_type: if odd_type == 0 { 0 } else { file_type },
+        });
+    prop_oneof![1 => Just(Free::default()), 1 => varied].boxed()
 }
 
 fn rcases() -> BoxedStrategy<RCase> {
@@ -792,7 +918,17 @@ fn sstr_mismatch<const L: usize, const E: u8>(got: &SauceString<L, E>, given: &S
 
 /// Save errors that say "this variant cannot carry that": BinaryText has one byte for width/2.
 fn legit_refusal(c: &WCase, err: &str) -> bool {
-    (c.fmt == BIN || c.fmt == IDF) && c.meta.width as i32 / 2 > 255 && err.contains("bin file width limit")
+    if (c.fmt == BIN || c.fmt == IDF) && c.meta.width as i32 / 2 > 255 && err.contains("bin file width limit") {
+        return true;
+    }
+    // formats that embed the font have their own limits on it
+    let f = base_font(&c.doc);
+    let (w, h) = (f.size.width, f.size.height);
+    match c.fmt {
+        ADF | IDF => (w, h) != (8, 16) && err.contains("8x16"),
+        XB => ((w != 8 || !(1..=32).contains(&h)) && err.contains(".xb format")) || (f.length != 256 && err.contains("256 chars long")),
+        _ => false,
+    }
 }
 
 /// A failure of a case with history is keyed like the same failure of a fresh buffer when the fresh buffer fails as well;
@@ -832,7 +968,7 @@ fn check_meta_once(c: &WCase) -> Verdict {
         Err(e) => {
             let e = e.to_string();
             if legit_refusal(c, &e) {
-                return Verdict::pass(false, format!("{fmt}|refused:width"));
+                return Verdict::pass(false, format!("{fmt}|refused"));
             }
             return Verdict::fail(format!("save.error|fmt={fmt}"), format!("writer refused a document of its own domain: {e}"));
         }
@@ -883,15 +1019,7 @@ fn check_meta_once(c: &WCase) -> Verdict {
     }
     let carries = carries_flags_and_font(c.fmt);
     // font name (ZString, 22): the name of font 0 where the variant has a FontName, nothing otherwise
-    let want_font: Vec<u8> = if carries {
-        if m.font.is_empty() {
-            buf.get_font(0).map(|f| f.name.clone()).and_then(|n| from_uni(&n)).unwrap_or_default()
-        } else {
-            m.font.0.clone()
-        }
-    } else {
-        Vec::new()
-    };
+    let want_font: Vec<u8> = if carries { carried_font_name(&buf) } else { Vec::new() };
     let got_font = s.font_opt.clone().unwrap_or_default();
     if from_uni(&got_font).as_deref().map(strip) != Some(strip(&want_font)) {
         return Verdict::fail(
@@ -956,7 +1084,7 @@ fn check_writer_split_once(c: &WCase) -> Verdict {
         Err(e) => {
             let e = e.to_string();
             if legit_refusal(c, &e) {
-                return Verdict::pass(false, format!("{fmt}|refused:width"));
+                return Verdict::pass(false, format!("{fmt}|refused"));
             }
             return Verdict::fail(format!("save.error|fmt={fmt}"), format!("writer refused a document of its own domain: {e}"));
         }
@@ -1032,7 +1160,7 @@ fn check_writer_split_once(c: &WCase) -> Verdict {
             return Verdict::fail(format!("record.flags.invented|fmt={fmt}"), format!("variant has neither flags nor font name, TFlags {:#04x} TInfoS \"{}\"", p.tflags, escape(&p.tinfos)));
         }
         if carries {
-            let want_font = if m.font.is_empty() { buf.get_font(0).and_then(|f| from_uni(&f.name)).unwrap_or_default() } else { m.font.0.clone() };
+            let want_font = carried_font_name(&buf);
             if zvalue(&p.tinfos) != strip(&want_font) {
                 return Verdict::fail(format!("record.font|fmt={fmt}"), format!("TInfoS \"{}\", name of font 0 \"{}\"", escape(&p.tinfos), escape(&want_font)));
             }
@@ -1047,7 +1175,7 @@ fn check_writer_split_once(c: &WCase) -> Verdict {
     }
     // (d) differential: record's width / ice / font equal to the loader's defaults => same picture as the content alone
     let default_ice = if matches!(c.fmt, ADF | IDF) { m.ice } else { !m.ice };
-    let defaults = m.width as i32 == default_width(c.fmt) && default_ice && m.font.is_empty();
+    let defaults = m.width as i32 == default_width(c.fmt) && default_ice && m.font.is_empty() && c.doc.font_shape == 0;
     if !defaults {
         return Verdict::pass(meta_nontrivial(&m.title, &m.author, &m.group, &m.comments), format!("{}|layout-only", wclass(c)));
     }
@@ -1080,7 +1208,51 @@ fn rcontent(c: &RCase) -> Result<Vec<u8>, String> {
     buf.to_bytes(ext(c.fmt), &save_opts(false)).map_err(|e| e.to_string())
 }
 
+/// Does this DataType/FileType pair have ANSiFlags + FontName (document: ASCII, ANSi, ANSiMation, BinaryText)?
+fn variant_has_flags(data_type: u8, file_type: u8) -> bool {
+    data_type == 5 || (data_type == 1 && file_type <= 2)
+}
+
+/// Does it have a character width in TInfo1 (Character: ASCII, ANSi, ANSiMation, PCBoard, Avatar, TundraDraw; XBin)?
+fn variant_has_tinfo_width(data_type: u8, file_type: u8) -> bool {
+    data_type == 6 || (data_type == 1 && matches!(file_type, 0 | 1 | 2 | 4 | 5 | 8))
+}
+
+const FREE_FIELDS: [&str; 6] = ["filesize", "date", "tinfo3_4", "tflags_reserved", "tinfos_padding", "datatype_filetype"];
+
+/// the case with one group of free fields put back to the document's value
+fn without_free_field(c: &RCase, i: usize) -> RCase {
+    let mut d = c.clone();
+    let f = &mut d.free;
+    match i {
+        0 => (f.size_sel, f.size_val) = (0, 0),
+        1 => (f.date_sel, f.date_raw) = (0, Bytes(Vec::new())),
+        2 => (f.tinfo3, f.tinfo4) = (0, 0),
+        3 => (f.flags_hi, f.flags_lo) = (0, 0),
+        4 => f.tinfos_junk = Bytes(Vec::new()),
+        _ => (f.odd_type, f.data_type, f.file_type) = (0, 0, 0),
+    }
+    d
+}
+
+/// A failure that disappears when one free field is put back to the document's value is keyed with that field.
 fn check_reader_split(c: &RCase) -> Verdict {
+    let v = check_reader_split_once(c);
+    if c.free == Free::default() {
+        return v;
+    }
+    if let Verdict::Fail { key, msg } = &v {
+        for (i, name) in FREE_FIELDS.iter().enumerate() {
+            let d = without_free_field(c, i);
+            if d.free != c.free && !matches!(check_reader_split_once(&d), Verdict::Fail { key: k, .. } if k == *key) {
+                return Verdict::fail(format!("{key}|field={name}"), format!("{msg} [does not fail with the document's value in that field]"));
+            }
+        }
+    }
+    v
+}
+
+fn check_reader_split_once(c: &RCase) -> Verdict {
     let fmt = ext(c.fmt);
     let content = match rcontent(c) {
         Ok(b) => b,
@@ -1103,29 +1275,81 @@ fn check_reader_split(c: &RCase) -> Verdict {
         1 => 0,
         _ => c.big_width,
     };
-    let (data_type, file_type, tinfo) = match c.fmt {
-        ANS | ADF => (1u8, if c.ansimation { 2u8 } else { 1 }, [w, lines, 0, 0]),
-        ASC => (1, 0, [w, lines, 0, 0]),
-        PCB => (1, 4, [w, lines, 0, 0]),
-        AVT => (1, 5, [w, lines, 0, 0]),
-        TND => (1, 8, [w, lines, 0, 0]),
-        BIN | IDF => (5, (dw / 2) as u8, [0, 0, 0, 0]),
-        _ => (6, 0, [w, lines, 0, 0]),
+    let f = &c.free;
+    let natural = f.odd_type == 0;
+    let (data_type, mut file_type) = if natural {
+        match c.fmt {
+            ANS | ADF => (1u8, if c.ansimation { 2u8 } else { 1 }),
+            ASC => (1, 0),
+            PCB => (1, 4),
+            AVT => (1, 5),
+            TND => (1, 8),
+            BIN | IDF => (5, 0),
+            _ => (6, 0),
+        }
+    } else {
+        (f.data_type, f.file_type)
     };
-    let has_flags = matches!(data_type, 5) || (data_type == 1 && file_type <= 2);
+    // the width setting of the record has to equal the loader's default *in the reading of its own variant*:
+    // BinaryText keeps width/2 in FileType, the Character text types and XBin keep it in TInfo1, every other variant has no character width at all
+    let mut tinfo = [w, lines, f.tinfo3, f.tinfo4];
+    if data_type == 5 {
+        file_type = match c.width_sel {
+            1 => 0,
+            _ => (dw / 2) as u8,
+        };
+        tinfo = [if natural { 0 } else { f.size_val as u16 }, if natural { 0 } else { lines }, f.tinfo3, f.tinfo4];
+    } else if !variant_has_tinfo_width(data_type, file_type) {
+        tinfo[0] = f.size_val as u16 ^ f.tinfo3;
+    }
+    let has_flags = variant_has_flags(data_type, file_type);
+    // ANSiFlags: bit 0 (iCE) stays 0 = the default; LS and AR any of the four values; bits 5..7 reserved
+    let tflags = if has_flags { ((c.ls & 3) << 1) | ((c.ar & 3) << 3) | (f.flags_hi << 5) } else { f.flags_lo };
+    // TInfoS: a ZString; what follows the terminator is padding. Variants without FontName: the field means nothing.
+    let mut tinfos: Vec<u8> = if has_flags && c.font_ibm_vga { b"IBM VGA".to_vec() } else { Vec::new() };
+    if !f.tinfos_junk.is_empty() {
+        if has_flags {
+            tinfos.push(0);
+        }
+        tinfos.extend_from_slice(&f.tinfos_junk);
+        tinfos.truncate(22);
+    }
+    let len = content.len() as u32;
+    let file_size = match f.size_sel {
+        0 => len,
+        1 => 0,
+        2 => 1,
+        3 => len.saturating_sub(1),
+        4 => len + 1,
+        5 => len + 2,
+        6 => u32::MAX,
+        _ => f.size_val,
+    };
+    let mut date = *b"20130504";
+    match f.date_sel {
+        0 => {}
+        1 => date = *b"        ",
+        2 => date = *b"00000000",
+        3 => date = *b"19941332",
+        4 => date = [0; 8],
+        _ => {
+            for (d, s) in date.iter_mut().zip(f.date_raw.iter()) {
+                *d = *s;
+            }
+        }
+    }
     let rec = RefRecord {
         title: c.title.0.clone(),
         author: c.author.0.clone(),
         group: c.group.0.clone(),
-        date: *b"20130504",
-        file_size: content.len() as u32,
+        date,
+        file_size,
         data_type,
         file_type,
         tinfo,
         comments: c.comments.iter().map(|b| b.0.clone()).collect(),
-        // ice flag of ADF/IDF: their loaders are ice anyway (the default there)
-        tflags: if has_flags { (c.ls << 1) | (c.ar << 3) } else { 0 },
-        tinfos: if has_flags && c.font_ibm_vga { b"IBM VGA".to_vec() } else { Vec::new() },
+        tflags,
+        tinfos,
     };
     let n = rec.comments.len();
     let trailer = ref_encode_trailer(&rec, if c.comment_pad_nul { 0 } else { b' ' });
@@ -1141,12 +1365,43 @@ fn check_reader_split(c: &RCase) -> Verdict {
         Ok(b) => b,
         Err(e) => return Verdict::fail(format!("differential.load_error|fmt={fmt}"), format!("content alone loads, content+EOF+SAUCE does not: {e}")),
     };
+    let describe = || format!("record DataType={data_type} FileType={file_type} TInfo={tinfo:?} TFlags={tflags:#04x} FileSize={file_size} (content {len} bytes) Date=\"{}\" ({lines_class}), {n} comment lines, content tail kind {}", escape(&date), c.tail);
     if let Some((size, d)) = picture_diff(&picture(&loaded), &plain_pic) {
-        return Verdict::fail(format!("differential.{}|fmt={fmt}", if size { "size" } else { "cells" }), format!("record TInfo1={w} TInfo2={lines} ({lines_class}), {n} comment lines, content tail kind {}: {d}", c.tail));
+        return Verdict::fail(format!("differential.{}|fmt={fmt}", if size { "size" } else { "cells" }), format!("{}: {d}", describe()));
+    }
+    // the metadata every variant carries, and the render hints of the variants the crate's own writers produce (ASCII, ANSi, BinaryText)
+    let hand = "hand_built";
+    let Some(s) = loaded.get_sauce() else {
+        // iCE Draw / native files: the loaders decide themselves what they keep; everything else has to show the record
+        return Verdict::fail(format!("meta.absent|fmt={fmt}|{hand}"), format!("{}: get_sauce() after load is None", describe()));
+    };
+    for (what, got, want) in [("title", s.title.to_string(), &c.title), ("author", s.author.to_string(), &c.author), ("group", s.group.to_string(), &c.group)] {
+        if from_uni(&got).as_deref() != Some(strip(want)) {
+            return Verdict::fail(format!("meta.{what}|{hand}"), format!("{}: loaded \"{got}\", record field \"{}\"", describe(), escape(want)));
+        }
+    }
+    if s.comments.len() != n {
+        return Verdict::fail(format!("meta.comments.count|{hand}"), format!("{}: {} lines loaded", describe(), s.comments.len()));
+    }
+    for (i, (got, want)) in s.comments.iter().zip(c.comments.iter()).enumerate() {
+        if from_uni(&got.to_string()).as_deref() != Some(zvalue(want)) {
+            return Verdict::fail(format!("meta.comments.text|{hand}"), format!("{}: line {i} loaded \"{got}\", block has \"{}\"", describe(), escape(want)));
+        }
+    }
+    if has_flags && !(data_type == 1 && file_type == 2) {
+        if s.use_ice {
+            return Verdict::fail(format!("meta.ice|{hand}"), format!("{}: iCE bit clear, loaded use_ice = true", describe()));
+        }
+        if c.ls <= 2 && s.use_letter_spacing != (c.ls == 2) {
+            return Verdict::fail(format!("meta.letter_spacing|{hand}"), format!("{}: LS field {}, loaded {}", describe(), c.ls, s.use_letter_spacing));
+        }
+        if c.ar <= 2 && s.use_aspect_ratio != (c.ar == 1) {
+            return Verdict::fail(format!("meta.aspect_ratio|{hand}"), format!("{}: AR field {}, loaded {}", describe(), c.ar, s.use_aspect_ratio));
+        }
     }
     let marker = c.tail != 0;
     let tail_class = ["none", "SAUCE", "COMNT", "EOF", "SAUCE00", "record", "comment_block", "trailer", "EOFEOF", "record-1"][c.tail.min(9) as usize];
-    Verdict::pass(marker || meta_nontrivial(&c.title, &c.author, &c.group, &c.comments), format!("{fmt}|tail={tail_class}"))
+    Verdict::pass(marker || meta_nontrivial(&c.title, &c.author, &c.group, &c.comments), format!("{fmt}|tail={tail_class}|{}", if c.free == Free::default() { "plain_record" } else { "free_fields" }))
 }
 
 // ---------------------------------------------------------------------------------------------------------------
@@ -1241,7 +1496,7 @@ fn grid_case(i: u64) -> WCase {
     let fmt = GRID_FMTS[i / (GRID_H.len() * GRID_W.len())];
     let meta = Meta { title: Bytes(b"size grid".to_vec()), comments: vec![Bytes(format!("{w}x{h}").into_bytes())], width: w, ..Meta::default() };
     let cells = vec![Cell { x: 0, y: 0, ch: b'A', fg: 7, bg: 0 }, Cell { x: u16::MAX, y: 0, ch: b'Z', fg: 7, bg: 0 }];
-    WCase { fmt, meta, height: h, cells, history: 0, prev: None }
+    WCase { fmt, meta, height: h, cells, history: 0, prev: None, doc: Doc::default() }
 }
 
 // ---------------------------------------------------------------------------------------------------------------
